@@ -1,7 +1,7 @@
 (* C09 property theorems. Nothing but statements closed by [exact].
    The model follows the code with the repairs F01, F02, F03, F06, F12, F17 applied;
    each *_refuted statement is the witness of the defect in the unrepaired code. *)
-From OIDC Require Import Lib C09_Json C09_Codec C09_Verifier C09_Handler C09_Client C09_spec C09_proofs.
+From OIDC Require Import Lib C09_Json C09_Codec C09_Verifier C09_Handler C09_Client C09_Crypto C09_spec C09_proofs.
 
 (* (a) every decoder, on every JSON value and whatever time.Parse / language.Parse answer:
    Audience, Time, Locale, Locales, Bool, SpaceDelimitedArray, nested actor claims, and
@@ -72,12 +72,31 @@ Theorem C09_handlers_unfixed_refuted : exists s, handler false s = OPanic.
 Proof. exact handlers_unfixed_refuted. Qed.
 Print Assumptions C09_handlers_unfixed_refuted.
 
-(* (d) client helpers, every status / body a provider may answer with *)
+(* (d) client helpers, every status / body a provider may answer with; and the device flow:
+   whatever poll interval the device authorization answer carries (absent, 0, negative, huge) *)
 Theorem C09_client_total :
-  forall (rfc3339_ok : string -> bool) (lang_class : string -> nat) (h : helper) (a : answer) (expect : string),
-    call rfc3339_ok lang_class true h a expect <> CPanic.
-Proof. exact call_total. Qed.
+  forall (rfc3339_ok : string -> bool) (lang_class : string -> nat),
+    (forall h a expect, call rfc3339_ok lang_class true h a expect <> CPanic) /\
+    (forall dev tok, device_flow rfc3339_ok lang_class true dev tok <> CPanic).
+Proof. exact client_total. Qed.
 Print Assumptions C09_client_total.
+
+(* seeded regression: waiting with time.NewTicker(interval) panics when the answer has no / a non-positive interval *)
+Theorem C09_device_ticker_refuted :
+  forall (rfc3339_ok : string -> bool) (lang_class : string -> nat),
+    exists dev tok, device_flow rfc3339_ok lang_class false dev tok = CPanic.
+Proof. exact device_ticker_refuted. Qed.
+Print Assumptions C09_device_ticker_refuted.
+
+(* opening an opaque token: every make-up of the string (alphabet characters, skipped CR / LF, other characters) *)
+Theorem C09_opaque_total : forall t : otoken, decrypt_aes true t <> Panic.
+Proof. exact decrypt_total. Qed.
+Print Assumptions C09_opaque_total.
+
+(* seeded regression: testing the minimum length on the encoded string lets "QUJD" + 18 line feeds through to cipherText[:16] *)
+Theorem C09_opaque_encoded_check_refuted : exists t, decrypt_aes false t = Panic.
+Proof. exact opaque_encoded_check_refuted. Qed.
+Print Assumptions C09_opaque_encoded_check_refuted.
 
 (* a helper reports success only for a 200 answer whose whole body is one JSON document
    (trailing bytes after a complete value are an error) *)
